@@ -15,6 +15,7 @@ import SvgVerif.Model.Shapes
 import SvgVerif.Model.PathParse
 import SvgVerif.Spec.PathSpec
 import SvgVerif.Model.PathPrint
+import SvgVerif.Model.Reverse
 open Svg Svg.Wire
 
 def fmtMat (m : Mat Float) : String :=
@@ -258,6 +259,18 @@ def step (line : String) : String :=
           | some cs => "OK\t" ++ " | ".intercalate (cs.map fmtCmd)
           | none => "NONE\t")
        | (_, some e) => fmtErr e ++ "\t")
+  | ["path.reverse", sg] =>
+      (match ((sg.splitOn "|").filter (fun t => t.trimAscii.toString ≠ "")).mapM segOfStr with
+       | some segs => (match pathReverse segs with
+          | some r => "OK\t" ++ " | ".intercalate (r.map fmtSeg)
+          | none => "NONE\t")
+       | none => "bad-op")
+  | ["path.subreverse", i, sg] =>
+      (match ((sg.splitOn "|").filter (fun t => t.trimAscii.toString ≠ "")).mapM segOfStr with
+       | some segs => (match subReverseAt segs i.toNat! with
+          | some r => "OK\t" ++ " | ".intercalate (r.map fmtSeg)
+          | none => "NONE\t")
+       | none => "bad-op")
   | ["path.spec", c] =>
       (match cmdsOf c with
        | some cs => (match interp cs with | some l => "OK\t" ++ fmtPSegs l | none => "NONE\t")
